@@ -25,29 +25,29 @@ LEVEL = "exploration"
 SHARDS = {"quick": 8, "thorough": 16}
 BUDGET = {"quick": 25.0, "thorough": 420.0}
 REQUIRE = {
-    "a_cases": 1500,
-    "a_cells_source_char": 10000,
+    "a_cases": 1000,
+    "a_cells_source_char": 9000,
     "a_cells_tagged": 5000,
     "a_cells_wide": 1500,
     "a_cells_multibyte": 1500,
     "a_cells_dec": 300,
     "a_rows_left_trimmed": 100,
     "a_edit_cases": 200,
-    "a_rows_width_judged": 5000,
+    "a_rows_width_judged": 3000,
     "a_cases_canvas_clipped": 300,
-    "a_clip_right_before_wide_char_with_own_attr": 15,
-    "a_clip_left_after_wide_char_with_own_attr": 15,
-    "a_rows_with_charset_runs": 800,
-    "a_rows_with_charset_runs_and_several_attrs": 500,
-    "a_attr_boundary_on_charset_boundary": 400,
-    "b_cases": 400,
-    "b_cells_judged": 15000,
+    "a_clip_right_before_wide_char_with_own_attr": 9,
+    "a_clip_left_after_wide_char_with_own_attr": 7,
+    "a_rows_with_charset_runs": 600,
+    "a_rows_with_charset_runs_and_several_attrs": 300,
+    "a_attr_boundary_on_charset_boundary": 200,
+    "b_cases": 200,
+    "b_cells_judged": 9000,
     "b_cells_remapped": 5000,
-    "b_focus_map_used": 200,
+    "b_focus_map_used": 100,
     "b_mutations_judged": 50,
     "b_chain_depth_ge3": 200,
-    "c_scenarios": 200,
-    "c_cells_judged": 5000,
+    "c_scenarios": 100,
+    "c_cells_judged": 4000,
     "c_pairs_distinct_styles": 1500,
     "c_alias_cells": 100,
     "c_undefined_cells": 100,
@@ -57,14 +57,30 @@ REQUIRE = {
     "c_draws_depth_88": 30,
     "c_draws_depth_256": 30,
     "c_draws_depth_16777216": 30,
-    "c_draws_bright_is_bold_True": 100,
+    "c_draws_bright_is_bold_True": 90,
     "c_draws_bright_is_bold_False": 100,
-    "c_redraw_same_content_after_property_change": 150,
-    "c_redraw_depth_up": 40,
-    "c_redraw_depth_down": 40,
-    "c_redraw_bright_is_bold_flip_only": 40,
-    "c_redraw_same_canvas_object": 60,
-    "c_redraw_cells_restyled": 800,
+    "c_redraw_same_content_after_property_change": 90,
+    "c_redraw_depth_up": 30,
+    "c_redraw_depth_down": 20,
+    "c_redraw_bright_is_bold_flip_only": 30,
+    "c_redraw_same_canvas_object": 50,
+    "c_redraw_cells_restyled": 700,
+    "l_rendered": 300,
+    "l_cells_judged": 6000,
+    "l_cells_tagged": 3000,
+    "l_cases_stepping_back_in_text": 100,
+    "l_cases_segment_straddles_earlier_end": 80,
+    "l_kind_overlap": 40,
+    "l_kind_reversed-lines": 40,
+    "l_kind_repeat": 40,
+    "l_kind_skip": 40,
+    "l_kind_mirror": 40,
+    "l_kind_random": 40,
+    "c_blank_cells_judged": 1000,
+    "c_trailing_blank_cells_erased": 400,
+    "c_trailing_blank_cells_printed": 200,
+    "c_trailing_blank_cells_with_visible_style": 200,
+    "c_trailing_blank_cells_visible_style_differs_between_depth_fields": 150,
 }
 RULE = (
     "(a) case = (encoding utf-8|euc-jp|ascii|iso8859-1, str|bytes markup, nested markup descriptor depth<=4 over a text of "
@@ -72,6 +88,9 @@ RULE = (
     "Text|Edit, width 1..30, wrap space|any|clip|ellipsis, align left|center|right[, edit_pos]); "
     "(b) case = (widget tree recipe of unique-glyph leaves Text/Edit/SolidFill in Pile/Columns under AttrMap/AttrWrap/"
     "fill_attr/fill_attr_apply chains with pool attribute names, width, focus, optional map mutation); "
+    "(l) case = (encoding, markup, width, user-supplied TextLayout returning a generated layout structure: forward / overlapping "
+    "(repeat the last 1-4 characters) / reversed line order / repeated lines / skipping / right-to-left mirrored / random segments with "
+    "inserted blanks and inserted text); expected cell attributes follow from the segment list alone; "
     "(c) case = (op order of set_terminal_properties/register_palette, palette entries of every form, depth, bright_is_bold, "
     "rows of attribute sequences, 0-3 further set_terminal_properties changes each followed by a redraw of the same content on the "
     "same started screen, ONE terminal model accumulating all output); distinct = distinct descriptors; non-trivial = at least one attributed cell judged"
@@ -1378,7 +1397,24 @@ def gen_c_case(rng):
                         bc = gen_high_colour(rng, colors)
                     row.append(["s", join_spec(rng, hc, gen_settings(rng)), bc, colors])
         rows.append(row)
-    return {"k": "c", "enc": rng.choice(["utf-8", "utf-8", "ascii"]), "ops": ops, "rows": rows}
+    # blank cells: a tail of 1..4 blanks per row (usually in ONE attribute, so that the display may replace them
+    # by "erase to end of line"), some interior blanks
+    blanks = []
+    for row in rows:
+        bl = []
+        if rng.random() < 0.65:
+            t = rng.randint(1, min(4, ncols - 1))
+            if rng.random() < 0.8:
+                ref = row[ncols - t - 1] if rng.random() < 0.4 else (["n", rng.choice(defined)] if rng.random() < 0.8 else row[-1])
+                for x in range(ncols - t, ncols):
+                    row[x] = ref
+            bl += list(range(ncols - t, ncols))
+        if rng.random() < 0.3:
+            x = rng.randrange(ncols)
+            if x not in bl:
+                bl.append(x)
+        blanks.append(sorted(bl))
+    return {"k": "c", "enc": rng.choice(["utf-8", "utf-8", "ascii"]), "ops": ops, "rows": rows, "blanks": blanks}
 
 
 class _Cap:
@@ -1473,7 +1509,8 @@ def c_eval(case, stats=None):
         ncols = len(rows[0])
         texts, attrs, refs = [], [], []
         for y, row in enumerate(rows):
-            texts.append("".join(CELL_CHARS[(y * 7 + x) % len(CELL_CHARS)] for x in range(ncols)).encode("ascii"))
+            bl = (case.get("blanks") or [[]] * len(rows))[y]
+            texts.append("".join(" " if x in bl else CELL_CHARS[(y * 7 + x) % len(CELL_CHARS)] for x in range(ncols)).encode("ascii"))
             arow = []
             rrow = []
             for ref in row:
@@ -1555,7 +1592,8 @@ def c_eval(case, stats=None):
                 scr.draw_screen((ncols, len(rows)), canv)
                 data = "".join(cap.buf).encode(case["enc"], "replace")
                 if vt is None:
-                    vt = VT(ncols, len(rows), utf8=case["enc"] == "utf-8")
+                    # bce: "erase to end of line" paints the current background colour and nothing else (xterm)
+                    vt = VT(ncols, len(rows), utf8=case["enc"] == "utf-8", bce=True)
                 vt.feed(data)
                 redraw = drawn_props is not None
                 changed = redraw and drawn_props != (depth, bib)
@@ -1624,6 +1662,26 @@ def c_eval(case, stats=None):
                         if prev_exp is not None and prev_exp != exp:
                             cnt("c_pairs_distinct_styles")
                         bad = c_cell_ok(cell, exp, bib)
+                        is_blank = texts[y][x] == 0x20
+                        if is_blank:
+                            # on a blank only the background and the styles drawn on empty cells are visible
+                            vis = {"bg", "underline", "standout", "strikethrough"}
+                            if "standout" in exp[2] and cell.reverse:
+                                vis |= {"fg", "bold"}
+                            bad = [b for b in bad if b in vis]
+                            cnt("c_blank_cells_judged")
+                            trailing = all(t == 0x20 for t in texts[y][x:])
+                            if trailing:
+                                cnt("c_trailing_blank_cells_erased" if cell.erased else "c_trailing_blank_cells_printed")
+                                if exp[2] & {"underline", "standout", "strikethrough"}:
+                                    cnt("c_trailing_blank_cells_with_visible_style")
+                                if not (isinstance(a, urwid.AttrSpec) or kind == "undefined-name"):
+                                    ent = model[a][0]
+                                    sets = set()
+                                    for fld in (ent[0], ent[2] if ent[2] is not None else "default", ent[3] if ent[3] is not None else ent[0]):
+                                        sets.add(M.split_spec(fld)[1] & {"underline", "standout", "strikethrough"})
+                                    if len(sets) > 1:
+                                        cnt("c_trailing_blank_cells_visible_style_differs_between_depth_fields")
                         exp_old = None
                         if changed:
                             # what the palette said under the terminal properties of the previous draw
@@ -1665,6 +1723,12 @@ def c_eval(case, stats=None):
                             sig = f"C17|c|entry={kind}|{how}|{stage}"
                             if stale:
                                 sig = f"C17|c|redraw-same-content|{how}|{stage}"
+                            elif is_blank and cell.erased:
+                                dc = "mono" if depth == 1 else ("16" if depth == 16 else "high")
+                                what = "lost-visible-style" if set(bad) <= {"underline", "standout", "strikethrough", "fg", "bold"} else "wrong:" + "+".join(bad)
+                                sig = f"C17|c|trailing-blanks-erased|{what}|depth-class={dc}|entry={kind}"
+                            elif is_blank:
+                                sig = f"C17|c|entry={kind}|blank-cell|{how}|{stage}"
                             if how.startswith("high-colour-fields-used-at-88"):
                                 sig = "C17|c|88-colours|hN>15-not-first-in-spec|high-colour-fields-used-instead-of-16-colour-fields"
                             out.append((sig, f"cell ({x},{y}) attr {a!r} depth {depth}: decoded {cell.style()!r}, palette says fg in {sorted(map(repr, exp[0]))} bg in {sorted(map(repr, exp[1]))} flags {sorted(exp[2])}; output={data!r}"))
@@ -1706,6 +1770,295 @@ def c_eval(case, stats=None):
 
 class _PaletteRaise(Exception):
     pass
+
+
+# ---------------------------------------------------------------------------------------------- (l) user-supplied layouts
+# The documented TextLayout interface lets an application hand Text any layout structure: lines of
+#   (cols, start, end) text segments | (n, offs-or-None) inserted blanks | (cols, offs, b"text") inserted text.
+# case = {"k": "l", "enc", "markup", "w", "kind", "lines": [[seg, ...], ...]}
+# seg  := ["t", start, end] | ["p", n, offs|None] | ["i", offs, "text"]
+# The expected (glyph, attribute) of every cell follows from the segment list and the markup alone.
+
+LAYOUT_KINDS = ["forward", "overlap", "reversed-lines", "repeat", "skip", "mirror", "random"]
+
+
+def _text_cols(text, a, b):
+    return sum(char_cols(ch) for ch in text[a:b])
+
+
+def _chunks(text, start, w, step=None):
+    """[(start, end)] consecutive pieces of at most w columns, at least one character each"""
+    out = []
+    n = len(text)
+    while start < n:
+        end, cols = start, 0
+        while end < n and cols + char_cols(text[end]) <= w:
+            cols += char_cols(text[end])
+            end += 1
+        if end == start:
+            end = start + 1  # cannot happen for w >= 2
+        out.append((start, end))
+        start = end
+    return out
+
+
+def gen_l_case(rng):
+    enc = rng.choices(list(ENCODINGS), [5, 3, 1, 2])[0]
+    n = rng.choice([3, 5, 8, 8, 12, 12, 18, 25])
+    text = gen_text(rng, enc, False, n).replace("\n", "")
+    if len(text) < 2:
+        text = "XY"
+    markup = gen_dense_markup(rng, text) if rng.random() < 0.5 else gen_markup(rng, text, 4, allow_empty=False)
+    w = rng.choice([2, 3, 4, 4, 5, 6, 8, 10, 15])
+    kind = rng.choice(LAYOUT_KINDS)
+    N = len(text)
+    lines = []
+    fw = _chunks(text, 0, w)
+    if kind == "forward":
+        lines = [[["t", a, b]] for a, b in fw]
+    elif kind == "overlap":
+        k = rng.randint(1, 4)
+        start = 0
+        for _ in range(60):
+            (a, b) = _chunks(text, start, w)[0]
+            lines.append([["t", a, b]])
+            if b >= N:
+                break
+            start = b - k if b - k > a else b
+    elif kind == "reversed-lines":
+        lines = [[["t", a, b]] for a, b in reversed(fw)]
+    elif kind == "repeat":
+        for a, b in fw:
+            lines.append([["t", a, b]])
+            if rng.random() < 0.5:
+                lines.append([["t", a, b]])
+        if rng.random() < 0.5:
+            a, b = rng.choice(fw)
+            lines.append([["t", a, b]])
+    elif kind == "skip":
+        start = rng.randint(0, min(3, N - 1))
+        while start < N:
+            (a, b) = _chunks(text, start, rng.randint(1, w) if w > 2 else w)[0]
+            lines.append([["t", a, b]])
+            start = b + rng.randint(0, 3)
+    elif kind == "mirror":
+        for a, b in fw:
+            lines.append([["t", i, i + 1] for i in range(b - 1, a - 1, -1)])
+    else:
+        for _ in range(rng.randint(1, 6)):
+            line, used = [], 0
+            for _ in range(rng.randint(1, 4)):
+                r = rng.random()
+                left = w - used
+                if left <= 0:
+                    break
+                if r < 0.6:
+                    a = rng.randrange(N)
+                    (a, b) = _chunks(text, a, min(left, rng.randint(1, w)))[0]
+                    c = _text_cols(text, a, b)
+                    if c > left:
+                        continue
+                    line.append(["t", a, b])
+                    used += c
+                elif r < 0.75:
+                    nb = rng.randint(1, min(3, left))
+                    line.append(["p", nb, None])
+                    used += nb
+                elif r < 0.9:
+                    nb = rng.randint(1, min(3, left))
+                    line.append(["p", nb, rng.randrange(N)])
+                    used += nb
+                else:
+                    t = rng.choice(["~", ">>", "<-"])
+                    if len(t) <= left:
+                        line.append(["i", rng.randrange(N), t])
+                        used += len(t)
+            lines.append(line)
+    # alignment-style padding in front of some lines
+    if kind != "random" and rng.random() < 0.3:
+        for line in lines:
+            used = sum(_text_cols(text, sg[1], sg[2]) for sg in line if sg[0] == "t")
+            if used < w and rng.random() < 0.6:
+                line.insert(0, ["p", rng.randint(1, w - used), None])
+    return {"k": "l", "enc": enc, "markup": markup, "w": w, "kind": kind, "lines": lines}
+
+
+_L_CLASSES = {}
+
+
+def _scripted_layout_class():
+    if _L_CLASSES:
+        return _L_CLASSES["cls"]
+    import urwid
+
+    class ScriptedLayout(urwid.TextLayout):
+        """a user layout: returns the layout structure it was given"""
+
+        def __init__(self, structure):
+            self.structure = structure
+
+        def supports_align_mode(self, align):
+            return True
+
+        def supports_wrap_mode(self, wrap):
+            return True
+
+        def layout(self, text, width, align, wrap):
+            return [list(line) for line in self.structure]
+
+        def pack(self, maxcol, layout):
+            return maxcol
+
+    _L_CLASSES["cls"] = ScriptedLayout
+    return ScriptedLayout
+
+
+def l_eval(case, stats=None):
+    import urwid
+    from urwid import util
+
+    def cnt(name, n=1):
+        if stats is not None:
+            stats.count(name, n)
+
+    enc, w = case["enc"], case["w"]
+    mode = ENCODINGS[enc]
+    src = M.flatten_markup(case["markup"], POOL)
+    text = "".join(ch for ch, _a in src)
+    out = []
+
+    def attr_at(o):
+        return src[o][1] if 0 <= o < len(src) else None
+
+    # reference: expected rows from the segment list alone
+    structure, want_rows = [], []
+    backward = overlap = False
+    high = 0
+    for line in case["lines"]:
+        segs, want = [], []
+        for sg in line:
+            if sg[0] == "t":
+                _t, a, b = sg
+                segs.append((_text_cols(text, a, b), a, b))
+                for o in range(a, b):
+                    want.append((text[o], {0: attr_at(o)}, char_cols(text[o])))
+                if a < high:
+                    backward = True
+                    if b > 0 and a < high <= b:
+                        overlap = True
+                high = max(high, b)
+            elif sg[0] == "p":
+                _p, nb, offs = sg
+                segs.append((nb, offs))
+                # documented: blanks take the attribute at that offset (None: no attribute).  Offset 0 is
+                # treated like None by the implementation; the statement does not decide: both accepted
+                acc = {0: None} if offs is None else {0: attr_at(offs), 1: None}
+                want += [(" ", acc, 1)] * nb
+            else:
+                _i, offs, t = sg
+                segs.append((len(t), offs, t.encode("ascii")))
+                want += [(ch, {0: attr_at(offs), 1: None}, 1) for ch in t]
+        used = sum(c for _g, _a, c in want)
+        want += [(" ", {0: None}, 1)] * (w - used)
+        structure.append(segs)
+        want_rows.append(want)
+    old = util.get_encoding()
+    util.set_encoding(enc)
+    try:
+        try:
+            widget = urwid.Text(build_markup(case["markup"], enc, False), layout=_scripted_layout_class()(structure))
+            canv = widget.render((w,))
+            rows = [list(r) for r in canv.content()]
+        except Exception as e:  # noqa: BLE001
+            import traceback
+
+            tb = traceback.extract_tb(e.__traceback__)
+            where = tb[-1].name if tb else "?"
+            out.append((f"C17|l|custom-layout|kind={case['kind']}|raise:{type(e).__name__}|in={where}", f"{type(e).__name__}: {e}"))
+            return out
+    finally:
+        util.set_encoding(old)
+    lk = "layout-steps-back-in-text" if backward else "layout-forward-only"
+    cnt("l_rendered")
+    cnt(f"l_kind_{case['kind']}")
+    if backward:
+        cnt("l_cases_stepping_back_in_text")
+    if overlap:
+        cnt("l_cases_segment_straddles_earlier_end")
+    if len(rows) != len(want_rows):
+        out.append((f"C17|l|custom-layout|{lk}|row-count-differs", f"{len(rows)} rows for {len(want_rows)} layout lines"))
+        return out
+    for y, (segs, want) in enumerate(zip(rows, want_rows)):
+        try:
+            items, split_attr, _split_cs = split_row(segs, mode)
+        except ValueError:
+            cnt("l_rows_undecodable_not_judged")
+            continue
+        if split_attr:
+            out.append((f"C17|l|custom-layout|{lk}|attr-run-ends-inside-a-character", f"row {y}: {segs!r}"))
+        got = [(_decode_item(b, cs, enc), a, wd) for b, wd, a, cs in items]
+        if [g for g, _a, _w in got] != [g for g, _a, _w in want]:
+            if sum(wd for _g, _a, wd in got) != w:
+                out.append((f"C17|l|custom-layout|{lk}|row-width-differs-from-canvas", f"row {y}: {segs!r}"))
+            else:
+                cnt("l_rows_glyphs_differ_not_judged")
+            continue
+        cnt("l_rows_judged")
+        for x, ((g, a, _wd), (_g2, acc, _w2)) in enumerate(zip(got, want)):
+            cnt("l_cells_judged")
+            if acc.get(0) is not None:
+                cnt("l_cells_tagged")
+            if any(_same(a, v) for v in acc.values()):
+                continue
+            nxt = want[x + 1][1].get(0) if x + 1 < len(want) else "<none>"
+            prv = want[x - 1][1].get(0) if x > 0 else "<none>"
+            if (_same(a, nxt) and not _same(a, prv)) or (_same(a, prv) and not _same(a, nxt)):
+                how = "has-attr-of-neighbouring-cell"
+            elif a is None:
+                how = "lost-attr"
+            else:
+                how = "other-attr"
+            cell = "blank" if g == " " else "char"
+            out.append((f"C17|l|custom-layout|{lk}|cell-attr|{how}", f"kind={case['kind']} enc={mode} {cell} row {y} cell {x} {g!r}: attr {a!r}, the layout maps it to an offset whose tag is {acc.get(0)!r}; row={segs!r}; line={case['lines'][y]!r}"))
+    return out
+
+
+def l_shrink(case, sig, budget=100):
+    def reproduces(c):
+        try:
+            return any(s == sig for s, _m in l_eval(c))
+        except Exception:  # noqa: BLE001
+            return False
+
+    best = dict(case)
+    tries = 0
+    c2 = dict(best, markup=M.simplify(best["markup"]))
+    tries += 1
+    if reproduces(c2):
+        best = c2
+    changed = True
+    while changed and tries < budget:
+        changed = False
+        for i in range(len(best["lines"]) - 1, -1, -1):
+            if len(best["lines"]) <= 1 or tries >= budget:
+                break
+            c2 = dict(best, lines=best["lines"][:i] + best["lines"][i + 1 :])
+            tries += 1
+            if reproduces(c2):
+                best = c2
+                changed = True
+        for i, line in enumerate(best["lines"]):
+            for j in range(len(line) - 1, -1, -1):
+                if len(line) <= 1 or tries >= budget:
+                    break
+                l2 = line[:j] + line[j + 1 :]
+                c2 = dict(best, lines=best["lines"][:i] + [l2] + best["lines"][i + 1 :])
+                tries += 1
+                if reproduces(c2):
+                    best = c2
+                    line = l2
+                    changed = True
+    return best
 
 
 # ---------------------------------------------------------------------------------------------- shrinking (b), (c)
@@ -1832,6 +2185,8 @@ def c_shrink(case, sig, budget=120):
             if len(best["rows"]) <= 1 or tries >= budget:
                 break
             c2 = dict(best, rows=best["rows"][:i] + best["rows"][i + 1 :])
+            if best.get("blanks"):
+                c2["blanks"] = best["blanks"][:i] + best["blanks"][i + 1 :]
             tries += 1
             if reproduces(c2):
                 best = c2
@@ -1841,6 +2196,8 @@ def c_shrink(case, sig, budget=120):
             if len(best["rows"][0]) <= 2 or tries >= budget:
                 break
             c2 = dict(best, rows=[r[:x] + r[x + 1 :] for r in best["rows"]])
+            if best.get("blanks"):
+                c2["blanks"] = [[b - (1 if b > x else 0) for b in bl if b != x] for bl in best["blanks"]]
             tries += 1
             if reproduces(c2):
                 best = c2
@@ -1850,8 +2207,8 @@ def c_shrink(case, sig, budget=120):
 
 # ---------------------------------------------------------------------------------------------- driver
 
-EVAL = {"a": a_eval, "b": b_eval, "c": c_eval}
-SHRINK = {"a": a_shrink, "b": b_shrink, "c": c_shrink}
+EVAL = {"a": a_eval, "b": b_eval, "c": c_eval, "l": l_eval}
+SHRINK = {"a": a_shrink, "b": b_shrink, "c": c_shrink, "l": l_shrink}
 
 
 def judge(ctx, case, shrink=True):
@@ -1913,7 +2270,7 @@ def run(ctx):
             ctx.count("a_fixed_seed_cases")
     n = 0
     cap = ctx.pick(40000, 1500000)
-    while ctx.more(0.45) and n < cap:
+    while ctx.more(0.4) and n < cap:
         n += 1
         case = gen_a_case(rng)
         judge(ctx, case)
@@ -1922,6 +2279,14 @@ def run(ctx):
         ctx.count(f"a_cases_wrap_{case['wrap']}")
         ctx.count(f"a_cases_enc_{case['enc']}")
         ctx.count(f"a_cases_markup_depth_{min(M.markup_depth(case['markup']), 5)}")
+        ctx.case(case)
+        if n <= 1:
+            ctx.sample(case)
+    n = 0
+    while ctx.more(0.5) and n < cap:
+        n += 1
+        case = gen_l_case(rng)
+        judge(ctx, case)
         ctx.case(case)
         if n <= 1:
             ctx.sample(case)
